@@ -199,17 +199,26 @@ func ReceiveSession(ctx context.Context, rw io.ReadWriter, state SessionState, n
 
 func setDeadline(ctx context.Context, conn net.Conn) context.CancelFunc {
 	cancelCtx, cancel := context.WithCancel(context.Background())
+	done := make(chan struct{})
 	go func() {
+		defer close(done)
 		select {
 		case <-ctx.Done():
+			// Leave the deadline in the past until negotiation has returned: if it
+			// were reset right away a cancellation that arrives between two reads
+			// or writes would be lost and the call would block for as long as the
+			// peer stays silent.
 			/* #nosec */
 			conn.SetDeadline(aLongTimeAgo)
-			/* #nosec */
-			conn.SetDeadline(time.Time{})
 		case <-cancelCtx.Done():
 		}
 	}()
-	return cancel
+	return func() {
+		cancel()
+		<-done
+		/* #nosec */
+		conn.SetDeadline(time.Time{})
+	}
 }
 
 func setWriteDeadline(ctx context.Context, conn net.Conn) context.CancelFunc {
